@@ -25,6 +25,9 @@ SPEC = Spec(
         "which cycle gonum's topo.DirectedCyclesIn reports is not modelled; the printed cycle is checked by the monitor cycleMsgOk (C09_cycle_message_sound) to be a closed walk of the model's graph starting and ending at the same connector",
         "node identity: the fnv-64a hash of service/internal/attribute is assumed injective on the keys of one configuration (a collision would show as a differing instance set)",
         "instrumented test connectors either forward every payload to their whole router or select next pipelines by id through the router API (Conn.sel, modelled by flowEdges); other run-time behaviours of real connectors are not modelled",
+        "gonum topo.Sort is trusted to fail iff the component graph has a directed cycle (the model's `sortable` is PROVED to have that property; gonum's code is not examined); fnv-64a node ids are assumed collision-free on the keys of one configuration",
+        "run-time law 'every consumer hands the payload to each next consumer exactly once, also when a sibling fails' is a law of the fan-out consumers (property C06) and of the test components; C09 exercises it with failing exporters/processors in 20% of the built cases (route multisets must not change) but does not prove it",
+        "the prop verdicts (routing/sharing/reject) are computed with the model functions whose meaning C09_check_sound states on the configuration alone; the independently written config-level enumerators are only a per-case cross-check of the model (prop refagree)",
     ],
     assumptions=[
         "pipeline ids are distinct (Go map keys); no pipeline lists a processor twice - this is what the modelled PipelineConfig.Validate guarantees (C09_validate_wf), and the harness only builds configurations that passed the real validation",
